@@ -44,6 +44,9 @@ pub struct ParCase {
     /// Miri "hammer" scenario: few literals, many overlapping calls, no coverage accounting
     #[serde(default)]
     pub hammer: bool,
+    /// std-thread engine: tasks enter their k-th operations together (sched::gate)
+    #[serde(default)]
+    pub gate: bool,
     /// compute the reference outcomes after the simulated run instead of before it, so that the
     /// run (not the reference call) is the first use of whatever process-global state exists
     #[serde(default)]
@@ -199,9 +202,14 @@ pub fn execute(case: &ParCase, spec: &SchedSpec, yield_mode: u8) -> RunResult {
     } else {
         sched::set_lib_sites(case.lib_mask, case.lib_every);
     }
+    let gated = case.gate && ntasks > 1;
+    sched::set_gate(if gated { ntasks } else { 0 });
     let body = Arc::new(move |t: usize| {
         let case = &shared;
         for (k, op) in case.tasks[t].iter().enumerate() {
+            if gated {
+                sched::gate();
+            }
             match op {
                 POp::StackPoison { pattern, kib } => {
                     stack_poison(*pattern, (*kib).min(case.stack_kib as u32 / 2));
@@ -218,8 +226,12 @@ pub fn execute(case: &ParCase, spec: &SchedSpec, yield_mode: u8) -> RunResult {
                 },
             }
         }
+        if gated {
+            sched::leave_gate();
+        }
     });
     let trace = sched::run_world(spec, ntasks, yield_mode, case.stack_kib, body);
+    sched::set_gate(0);
     sched::set_lib_sites(0, 1);
     worlds::set_poison_all(None);
     worlds::set_poison_mode_all(0);
@@ -353,6 +365,9 @@ pub fn run_case(case: &ParCase, stats: &mut Stats, miri: bool) -> Result<ParInfo
             // coverage accounting (never part of a verdict)
             let tier = if case.hammer {
                 stats.inc("reach.hammer_calls");
+                if inp.family.starts_with("hammer_deep") {
+                    stats.inc("reach.hammer_deep_calls_two_large_powers_of_five");
+                }
                 None
             } else if prop == "C08" {
                 // tier accounting on corrupted bytes may itself panic (cleanly); it doubles the
@@ -655,9 +670,57 @@ fn draw_shape_pair(r: &mut Rng, li: usize, lf: usize, sim_only: bool) -> (ShapeS
 
 /// Engine B scenario for unsynchronised shared state: 2-3 real threads hammer the
 /// same two short big-integer-tier literals through plain slices in one configuration.
+/// *Deep* variant (half of the cases): f64 literals of 20-40 digits cut from the midpoint
+/// expansions of two floats of very large or very small magnitude, so that the two requests
+/// need two different powers of five >= 5^135 (long multiplication, large-power caches).
 fn gen_hammer_case(seed: u64, cfg: &GenCfg) -> ParCase {
     let mut r = Rng::new(seed ^ 0x4A33);
     let mut inputs: Vec<Input> = Vec::new();
+    let deep = r.chance(1, 2);
+    if deep {
+        let big = r.chance(1, 2);
+        let mut first_ef: Option<u64> = None;
+        let kdigits = 20 + r.usize_below(21);
+        while inputs.len() < 2 {
+            // the second request sits a few binades from the first: a different power of five, nearly the
+            // same amount of work - threads that start together reach the same library sites together
+            let ef = match first_ef {
+                Some(f) => (f as i64 + *r.pick(&[-9i64, -7, -4, 4, 7, 9])).clamp(1, 0x7FE) as u64,
+                None => {
+                    if big {
+                        0x7F0 - r.below(480)
+                    } else {
+                        16 + r.below(480)
+                    }
+                },
+            };
+            first_ef = Some(ef);
+            let bits = (ef << 52) | (gen::draw_float_bits(&mut r, true) & ((1u64 << 52) - 1));
+            let (m, e) = gen::decompose(bits, true);
+            let base = gen::halfway_decimal(m, e);
+            let k = kdigits.min(base.digits.len());
+            let mut digits = base.digits[..k].to_vec();
+            let cut = base.digits.len() - k;
+            if cut > 0 && r.chance(1, 2) {
+                // the cut-off expansion lies just below the midpoint; one more in the last place lies just above
+                let mut i = k;
+                while i > 0 {
+                    i -= 1;
+                    if digits[i] == b'9' {
+                        digits[i] = b'0';
+                    } else {
+                        digits[i] += 1;
+                        break;
+                    }
+                }
+            }
+            let d = gen::Dec { digits, dec_exp: base.dec_exp + cut as i64 };
+            let i = if r.chance(1, 2) { gen::split_at(&d, usize::MAX, 0, "hammer_deep_f64") } else { gen::split(&d, &mut r, "hammer_deep_f64") };
+            if gen::is_valid(&i) && !inputs.contains(&i) {
+                inputs.push(i);
+            }
+        }
+    }
     let mut tries = 0;
     while inputs.len() < 2 && tries < 200 {
         tries += 1;
@@ -672,16 +735,17 @@ fn gen_hammer_case(seed: u64, cfg: &GenCfg) -> ParCase {
     let world = r.below(N_WORLDS as u64) as u8;
     let ntasks = 2 + r.usize_below(2);
     let mut tasks = Vec::new();
+    let n_deep = 4 + r.usize_below(3);
     for t in 0..ntasks {
-        let n = 4 + r.usize_below(3);
+        let n = if deep { n_deep } else { 4 + r.usize_below(3) };
         let mut ops = Vec::new();
         for k in 0..n {
-            let input = match t % 3 {
-                0 => k % 2,
-                1 => 0,
+            let input = match (t % 3, deep) {
+                (0, _) => k % 2,
+                (1, false) | (2, true) => 0,
                 _ => (k + 1) % 2,
             };
-            ops.push(POp::Parse { world, f64: false, input, si: ShapeSpec::slice(), sf: ShapeSpec::slice() });
+            ops.push(POp::Parse { world, f64: deep, input, si: ShapeSpec::slice(), sf: ShapeSpec::slice() });
         }
         tasks.push(ops);
     }
@@ -695,9 +759,10 @@ fn gen_hammer_case(seed: u64, cfg: &GenCfg) -> ParCase {
         poison_run: None,
         fill: None,
         stack_kib: 512,
-        lib_mask: if r.chance(1, 2) { 0 } else { r.next_u64() },
+        lib_mask: if deep { u64::MAX } else if r.chance(1, 2) { 0 } else { r.next_u64() },
         lib_every: *r.pick(&[1u32, 3, 7]),
         hammer: true,
+        gate: deep,
         ref_after: r.chance(1, 2),
         poison_mode: 0,
     }
@@ -747,6 +812,7 @@ fn gen_marathon_case(seed: u64, cfg: &GenCfg) -> ParCase {
         lib_mask: 0,
         lib_every: 1,
         hammer: false,
+        gate: false,
         ref_after: r.chance(1, 2),
         poison_mode: 0,
     }
@@ -892,6 +958,7 @@ pub fn gen_case(seed: u64, cfg: &GenCfg) -> ParCase {
         },
         lib_every: *r.pick(&[1u32, 1, 2, 5, 16]),
         hammer: false,
+        gate: false,
         ref_after: r.chance(1, 2),
         poison_mode: if cfg.miri { 0 } else { *r.pick(&[0u8, 0, 0, 0, 1, 2]) },
     })
@@ -1122,6 +1189,7 @@ pub fn gen_case_c08(seed: u64, cfg: &GenCfg) -> ParCase {
         lib_mask: 0,
         lib_every: 1,
         hammer: false,
+        gate: false,
         ref_after: false,
         poison_mode: if cfg.miri { 0 } else { *r.pick(&[0u8, 0, 1, 2]) },
     }
